@@ -304,13 +304,23 @@ Definition md_style (s : str) : str * option nat :=
   | [] => ([], None) end.
 (* heading levels above 9 have no style in the template: outside *)
 Definition block_ok (s : str) : bool := forallb (fun l => match snd (md_style l) with Some k => k <=? 9 | None => true end) (s :: split_lines s).
+(* the story (index in iter_document_parts order) a paragraph belongs to *)
+Definition story_of (pid : nat) (d : doc) : option nat :=
+  (fix go (l : list story) (i : nat) : option nat :=
+     match l with
+     | [] => None
+     | st :: r => if existsb (fun p => Nat.eqb (p_id p) pid) (flat_map block_paras (s_blocks st)) then Some i else go r (S i)
+     end) (d_stories d) 0.
 Definition para_rec (uid : nat) (d : doc) : option para :=
   find (fun p => match find_run_in uid (p_nodes p) with Some _ => true | None => false end) (doc_paras d).
+(* paragraph-property tokens are opaque except for one: token 5 is "only a section break" (a section-ending paragraph); the copy
+   made for an inserted paragraph leaves the section break out (fix D52) *)
+Definition ppr_no_sect (t : N) : N := if N.eqb t 5 then 0%N else t.
 (* one new paragraph holding one w:ins: heading style, or a copy of the current paragraph's properties *)
 Definition new_para (e : eng) (text : str) (anchor : rpr) (suppress : bool) (style : option nat) (cur : para) : eng * para * nat :=
   let '(e1, ins) := ins_inline e text anchor suppress in
   let '(e2, pid) := fresh_e e1 in
-  (e2, {| p_id := pid; p_ppr := match style with Some _ => 0%N | None => p_ppr cur end;
+  (e2, {| p_id := pid; p_ppr := match style with Some _ => 0%N | None => ppr_no_sect (p_ppr cur) end;
           p_style := match style with Some l => PSHeading l | None => p_style cur end; p_nodes := [ins] |}, node_uid ins).
 (* body.insert(p_index + 1 + i, new_p): positions are taken in the block list that holds the current paragraph *)
 Fixpoint insert_at {A} (i : nat) (x : A) (l : list A) : list A :=
@@ -461,13 +471,14 @@ Definition apply_indexed (s : est) (use_clean : bool) (start : nat) (target new 
       let here := find (fun x => (o_start x <=? start) && (start <? o_end x)) sp in
       let '(a, before) :=
         if Nat.eqb start 0 then (a0, true)
-        else if negb inl then (a0, false)
         else match here with
              | Some h =>
                match o_pid h with
                | Some hp =>
                  let ap := match a0 with Some u => para_of_run u d1 | None => None end in
-                 if opt_nat_eqb ap (Some hp) then (a0, false)
+                 (* text with line breaks keeps the preceding run as its anchor unless that run lies in another story (fix D53) *)
+                 let other_story := match ap with Some x => negb (opt_nat_eqb (story_of x d1) (story_of hp d1)) | None => true end in
+                 if opt_nat_eqb ap (Some hp) || negb (inl || other_story) then (a0, false)
                  else match find (fun x => o_real x && (start <=? o_start x) && opt_nat_eqb (o_pid x) (Some hp)) sp with
                       | Some f => (Some (o_uid f), true)
                       | None => (a0, false) end
